@@ -72,10 +72,27 @@ func LoadWorld() (*World, error) {
 			w.contracts[c.Key] = c
 		}
 		w.lemmas = append(w.lemmas, cf.Lemmas...)
+		for _, sf := range cf.SpecFuns {
+			specFuns[sf.Name] = sf
+			var n int
+			if _, err := fmt.Sscanf(sf.Ret, "bytes[%d]", &n); err == nil && n > 0 {
+				fixedLenApps[sf.Name] = n
+			}
+		}
 	}
 	w.loadSecs = time.Since(t0).Seconds()
 	return w, nil
 }
+
+type retryItem struct {
+	o    *Obligation
+	text string
+}
+
+var (
+	retry   []retryItem
+	retryMu sync.Mutex
+)
 
 // discharge runs the solver on every obligation that is not syntactically decided.
 func discharge(obls []*Obligation, timeoutMs int) {
@@ -109,12 +126,29 @@ func discharge(obls []*Obligation, timeoutMs int) {
 		go func() {
 			defer wg.Done()
 			o.Res = Solve(text, timeoutMs)
-			if o.Res.Status != "unsat" && os.Getenv("GOVC_KEEP") != "" {
+			if o.Res.Status == "unknown" || o.Res.Status == "error" {
+				retryMu.Lock()
+				retry = append(retry, retryItem{o, text})
+				retryMu.Unlock()
+			}
+			if (o.Res.Status != "unsat" || o.Res.Seconds > 3) && os.Getenv("GOVC_KEEP") != "" {
 				os.WriteFile(fmt.Sprintf("%s/%s.smt2", os.Getenv("GOVC_KEEP"), sanitize(o.Name)), []byte(text), 0o644)
 			}
 		}()
 	}
 	wg.Wait()
+	// undecided queries are retried one at a time on an otherwise idle machine with twice the timeout:
+	// a timeout caused by load must not turn into an alarm
+	if len(retry) > 0 && len(retry) <= 6 {
+		for _, it := range retry {
+			r := Solve(it.text, 2*timeoutMs)
+			if r.Status == "unsat" || r.Status == "sat" {
+				r.Raw = "retry: " + r.Raw
+				it.o.Res = r
+			}
+		}
+	}
+	retry = nil
 }
 
 func main() {
@@ -244,8 +278,14 @@ func cmdVerify(args []string) int {
 					break
 				}
 			}
-			if status != "ok" || *verbose {
-				fmt.Printf("  %-6s %s (%d)%s\n", status, n, len(byName[n]), detail)
+			maxS := 0.0
+			for _, o := range byName[n] {
+				if o.Res.Seconds > maxS {
+					maxS = o.Res.Seconds
+				}
+			}
+			if status != "ok" || *verbose || maxS > 2 {
+				fmt.Printf("  %-6s %s (%d) max %.1fs%s\n", status, n, len(byName[n]), maxS, detail)
 			}
 		}
 		for _, n := range ex.fnNotes[key] {
